@@ -1,4 +1,5 @@
 (* C05 — ORDER BY, LIMIT and OFFSET return the right rows in the right order.
+   (models transcribed at /repo HEAD 1c4a1c7)
    Property theorems only.  Model/SortKernels.v transcribes merge.rs, merge_keep.rs, the select
    branch of batch_merging::combine and the final slice of query_task.rs; it is tied to the Rust
    kernels by the lv_query harness (suite c05_kernel) and the whole path is checked against
@@ -8,7 +9,7 @@
    key type, NULL placed by the comparator on Val / fused sentinels); the theorems hold for every
    total and transitive [le]. *)
 From Coq Require Import NArith ZArith Arith List Bool Permutation Sorting.Sorted.
-From LV Require Import Model.SortKernels Proofs.SortKernels.
+From LV Require Import Model.QuerySpec Model.SortKernels Proofs.SortKernels Proofs.QuerySpec.
 Import ListNotations.
 
 Section C05.
@@ -69,20 +70,26 @@ Theorem C05_no_order :
     stree_out limit t = firstn (N.to_nat limit) (stree_rows t).
 Proof. intros B. exact (@select_any_tree B). Qed.
 
-(* the final slice returns rows offset+1 .. offset+limit, fewer or none when short ... *)
-Theorem C05_slice :
+(* the final slice (query_task.rs convert_to_output_format, after fix 0df51a0) is TOTAL and returns rows
+   offset+1 .. offset+limit, fewer or none when the result is shorter: C05_slice_total now holds
+   (finding F5 fixed) ... *)
+Theorem C05_slice_total :
   forall (B : Type) (limit offset : N) (rows : list B),
-    (offset <= N.of_nat (length rows))%N ->
-    final_slice limit offset rows =
-      Some (firstn (N.to_nat (N.min limit (N.of_nat (length rows) - offset))) (skipn (N.to_nat offset) rows)).
-Proof. intros B. exact (@final_slice_ok B). Qed.
+    final_slice limit offset rows = firstn (N.to_nat limit) (skipn (N.to_nat offset) rows).
+Proof. intros B. exact (@final_slice_spec B). Qed.
 
-(* ... but totality is refuted on the faithful model (finding F5): OFFSET beyond the row count
-   underflows `len - offset`, and LIMIT + OFFSET can overflow u64 (OFFSET without LIMIT) *)
-Theorem C05_slice_total_refuted :
-  (exists (limit offset : N) (rows : list nat), final_slice limit offset rows = None) /\
-  (exists limit offset, combined_limit limit offset = None).
-Proof. split; [exact final_slice_refuted|exact combined_limit_refuted]. Qed.
+(* ... it is exactly the LIMIT / OFFSET window of the specification (Model/QuerySpec.v) ... *)
+Theorem C05_slice_is_spec_window :
+  forall (B : Type) (limit offset : N) (rows : list B),
+    final_slice limit offset rows = QuerySpec.window offset (Some limit) rows.
+Proof. intros B. exact (@final_slice_is_window B). Qed.
+
+(* ... and limit + offset (each partition keeps that many rows) saturates instead of overflowing *)
+Theorem C05_combined_limit_total :
+  forall limit offset,
+    (combined_limit limit offset <= u64_max)%N /\
+    ((limit + offset <= u64_max)%N -> combined_limit limit offset = (limit + offset)%N).
+Proof. intros limit offset. split; [apply combined_limit_bounded|apply combined_limit_exact]. Qed.
 
 (* non-vacuity: the hypotheses are satisfiable (Z.leb), and a concrete merge with limit *)
 Example C05_example_Z :
